@@ -220,7 +220,7 @@ def check(run):
     # the function's own guard is exactly det != 0: the panic path is taken iff det = 0
     for pc, msg, pst in c.panics:
         run.prove('C19 intersect_planes: panic only if the three normals are linearly dependent', list(pc), det != 0, timeout=30)
-    side_obligations(run, 'C19 intersect_planes', st, H)
+    run.guard(side_obligations, 'C19 intersect_planes', st, H)
 
     # ---- Plane::project_onto
     nn, pp, xx = rvec('n'), rvec('p'), rvec('x')
@@ -229,12 +229,12 @@ def check(run):
     st, y = c.single()
     H = pre + hyps_of(st)
     vs = all_vars(nn, pp, xx)
-    decide(run, 'project_onto', "(x' - p) . n = 0", H, zdot(vsub(y, pp), nn) == 0, vs)
-    decide(run, 'project_onto', "(x' - x) x n = 0", H, veq(cross(vsub(y, xx), nn), Agg('DVec3', [0, 0, 0])), vs)
+    run.guard(decide, 'project_onto', "(x' - p) . n = 0", H, zdot(vsub(y, pp), nn) == 0, vs)
+    run.guard(decide, 'project_onto', "(x' - x) x n = 0", H, veq(cross(vsub(y, xx), nn), Agg('DVec3', [0, 0, 0])), vs)
     c2 = Call(run, funcs, r'::project_onto$', [mk_plane(nn, pp), y], by_ref=(0,))
     st2, y2 = c2.single()
-    decide(run, 'project_onto', 'idempotent', H + hyps_of(st2), veq(y2, y), vs)
-    side_obligations(run, 'C19 project_onto', st, pre)
+    run.guard(decide, 'project_onto', 'idempotent', H + hyps_of(st2), veq(y2, y), vs)
+    run.guard(side_obligations, 'C19 project_onto', st, pre)
 
     # ---- Plane::project_onto_intersection
     n1, p1, n2, p2, xx = rvec('n1'), rvec('p1'), rvec('n2'), rvec('p2'), rvec('x')
@@ -244,14 +244,14 @@ def check(run):
     st, y = c.single()
     H = pre + hyps_of(st)
     vs = all_vars(n1, p1, n2, p2, xx)
-    decide(run, 'project_onto_intersection', 'on plane 1', H, zdot(vsub(y, p1), n1) == 0, vs)
-    decide(run, 'project_onto_intersection', 'on plane 2', H, zdot(vsub(y, p2), n2) == 0, vs)
-    decide(run, 'project_onto_intersection', "(x' - x) . (n1 x n2) = 0", H, zdot(vsub(y, xx), cr) == 0, vs)
+    run.guard(decide, 'project_onto_intersection', 'on plane 1', H, zdot(vsub(y, p1), n1) == 0, vs)
+    run.guard(decide, 'project_onto_intersection', 'on plane 2', H, zdot(vsub(y, p2), n2) == 0, vs)
+    run.guard(decide, 'project_onto_intersection', "(x' - x) . (n1 x n2) = 0", H, zdot(vsub(y, xx), cr) == 0, vs)
     for pc, msg, pst in c.panics:
         run.prove('C19 project_onto_intersection: panic only if n1 x n2 = 0', pre + list(pc), True, timeout=30)
     c2 = Call(run, funcs, r'::project_onto_intersection$', [mk_plane(n1, p1), mk_plane(n2, p2), y], by_ref=(0, 1))
     st2, y2 = c2.single()
-    decide(run, 'project_onto_intersection', 'idempotent', H + hyps_of(st2), veq(y2, y), vs, timeout=120)
+    run.guard(decide, 'project_onto_intersection', 'idempotent', H + hyps_of(st2), veq(y2, y), vs, timeout=120)
 
     # ---- signed_volume_tet
     v = [rvec('v%d' % k) for k in range(4)]
@@ -260,7 +260,7 @@ def check(run):
     H = hyps_of(st)
     vs = all_vars(*v)
     ref = to_z3(dot(cross(vsub(v[1], v[0]), vsub(v[2], v[0])), vsub(v[3], v[0]))) / 6
-    decide(run, 'signed_volume_tet', '= ((v1-v0)x(v2-v0)).(v3-v0)/6', H, to_z3(val) == ref, vs)
+    run.guard(decide, 'signed_volume_tet', '= ((v1-v0)x(v2-v0)).(v3-v0)/6', H, to_z3(val) == ref, vs)
     for a, b in ((0, 1), (0, 2), (0, 3), (1, 2), (1, 3), (2, 3)):
         o = [0, 1, 2, 3]
         o[a], o[b] = o[b], o[a]
@@ -282,14 +282,14 @@ def check(run):
     H = hyps_of(st)
     vs = all_vars(v0, v1, v2, t)
     nrm = cross(vsub(v1, v0), vsub(v2, v0))
-    decide(run, 'signed_area_tri', 'value^2 = |(v1-v0)x(v2-v0)|^2 / 4', H, to_z3(val) * to_z3(val) * 4 == zdot(nrm, nrm), vs)
+    run.guard(decide, 'signed_area_tri', 'value^2 = |(v1-v0)x(v2-v0)|^2 / 4', H, to_z3(val) * to_z3(val) * 4 == zdot(nrm, nrm), vs)
     side = zdot(vsub(t, v0), nrm)
     decide(run, 'signed_area_tri', 'sign = side of t (positive if counter-clockwise seen from t)', H,
            z3.And(z3.Implies(side > 0, to_z3(val) >= 0), z3.Implies(side < 0, to_z3(val) <= 0)), vs)
     st2, val2 = Call(run, funcs, r'^signed_area_tri$', [v0, v2, v1, t]).single()
     decide(run, 'signed_area_tri', 'antisymmetric in (v1,v2) when t is off the plane', H + hyps_of(st2) + [side != 0],
            to_z3(val2) == -to_z3(val), vs)
-    side_obligations(run, 'C19 signed_area_tri', st, [])
+    run.guard(side_obligations, 'C19 signed_area_tri', st, [])
 
     # ---- spheres
     a, b, cc, d = rvec('a'), rvec('b'), rvec('c'), rvec('d')
@@ -299,7 +299,7 @@ def check(run):
     vs = all_vars(a, b)
     for nm, pt in (('a', a), ('b', b)):
         decide(run, 'sphere2', '|c-%s|^2 = r^2' % nm, H, zdot(vsub(ctr, pt), vsub(ctr, pt)) == to_z3(rad) * to_z3(rad), vs)
-    decide(run, 'sphere2', 'centre is the midpoint, r >= 0', H, z3.And(veq(vadd(ctr, ctr), vadd(a, b)), to_z3(rad) >= 0), vs)
+    run.guard(decide, 'sphere2', 'centre is the midpoint, r >= 0', H, z3.And(veq(vadd(ctr, ctr), vadd(a, b)), to_z3(rad) >= 0), vs)
 
     ab = cross(vsub(a, cc), vsub(b, cc))
     pre = [zdot(ab, ab) != 0]
@@ -375,7 +375,7 @@ def check(run):
     pts = {nm: rvec(nm) for nm in 'abcdv'}
     st, val = Call(run, funcs, r'^in_sphere_test$', [pts[nm] for nm in 'abcdv']).single()
     P = {nm: list(pts[nm].items) for nm in 'abcdv'}
-    decide(run, 'insphere_float', 'equals the lifted 4x4 determinant', hyps_of(st), to_z3(val) == insphere.ref_det(P), all_vars(*pts.values()))
+    run.guard(decide, 'insphere_float', 'equals the lifted 4x4 determinant', hyps_of(st), to_z3(val) == insphere.ref_det(P), all_vars(*pts.values()))
 
     run.assume('f64 arithmetic read as exact real arithmetic: rounding error, overflow and NaN are outside the claim')
     run.assume('documented preconditions: linearly independent normals, affinely independent points, positive radius')
